@@ -14,12 +14,14 @@ CASES = {'quick': 12000, 'thorough': 300000}
 PARALLEL = True
 PROOF_TIMEOUT = 1500
 RULE = ('random action programs: include tree <= 6 nodes, <= 12 actions incl. re-entrantly declared ones (depth <= 2), '
-        '<= 4 discriminators (truthy tuples or the falsy hashables (), frozenset(), 0, \'\') + None + Deferred, phases from {-30,-20,-10,0,5} (+ rarely order=None), declared either '
+        'histories of up to 3 commits on ONE ActionState/Configurator; repeated (equal) plain-None declarations; <= 4 discriminators (truthy tuples or the falsy hashables (), frozenset(), 0, \'\') + None + Deferred, phases from {-30,-20,-10,0,5} (+ rarely order=None), declared either '
         'directly on ActionState or through real nested Configurator.include configurators, executed with '
         'execute_actions()/commit(); plus resolveConflicts() driven directly on a fresh ConflictResolverState; '
         'non-trivial = at least two actions share a non-None discriminator (so the conflict machinery decides '
         'something); distinct by full case')
-ASSUMPTIONS = ['action dicts are pairwise unequal (each has its own callable/info), so list.remove(action) removes that action',
+ASSUMPTIONS = ['action dicts are pairwise unequal, EXCEPT repeated declarations of a None-discriminated action (equal dicts: modelled as '
+               'the same action value twice; list.remove removes the first equal one); the theorems that need distinct '
+               'identities (wf_ids) do not cover repetitions, the comparison with the specification does',
                'action callables do not raise and touch the action state only by declaring further actions',
                "order is an int for the theorems (order=None is modelled: 'order or 0', min_order = None)",
                'discriminators are compared by ==/hash; a Deferred is private to its action and its function is pure',
@@ -33,7 +35,8 @@ TRUSTED = ['hand-written model coq/Model/C04.v of resolveConflicts, ConflictReso
 TECHNIQUE = ('Coq proof (induction over phases / generator steps) on a hand-written Gallina model + regenerated facts + '
              'control flow of execute_actions / Configurator.action regenerated from the source with generated = model '
              'theorems + extracted-model differential correspondence')
-LEVEL_TEXT = ('Machine-checked theorems about an executable model of execute_actions/resolveConflicts that follows the '
+LEVEL_TEXT = ('Histories of commits on one object and repeated equal declarations are part of the compared input space. '
+              'Machine-checked theorems about an executable model of execute_actions/resolveConflicts that follows the '
               'code statement by statement (generator suspension included); the declarative commit specification is a '
               'Gallina function returned next to the model output and compared with the real implementation on every case.')
 LEVEL_NOTE = ('Trusted: Coq kernel; hand-written model (validated by correspondence; resolveConflicts & co shape-pinned, '
@@ -269,6 +272,24 @@ def facts(src):
         incdec = [_u(x) for x in mc.find('Configurator.include').decorator_list]
         if incdec:
             problems.append('Configurator.include gained a decorator: %r' % incdec)
+        # no state shared between instances or kept across calls: no class-level attribute on the state classes, only
+        # immutable defaults in the modelled functions
+        for cn in ('ActionState', 'ConflictResolverState'):
+            cd = [n for n in ma.tree.body if isinstance(n, ast.ClassDef) and n.name == cn][0]
+            extra = [_u(n)[:60] for n in cd.body if not isinstance(n, (ast.FunctionDef, ast.Expr, ast.Pass))]
+            if extra or cd.decorator_list or cd.bases:
+                problems.append('class %s has class-level state, bases or decorators: %r' % (cn, extra))
+        for qn in ('ActionState.action', 'ActionState.execute_actions', 'resolveConflicts', 'normalize_actions',
+                   'expand_action_tuple', 'ActionConfiguratorMixin.action'):
+            fn = ma.find(qn)
+            for dflt in list(fn.args.defaults) + [x for x in fn.args.kw_defaults if x is not None]:
+                if not (isinstance(dflt, ast.Constant) or (isinstance(dflt, ast.Tuple) and not dflt.elts)):
+                    problems.append('%s has a mutable or computed default argument: %s' % (qn, _u(dflt)))
+            if fn.decorator_list:
+                problems.append('%s gained a decorator' % qn)
+        rebinds = [_u(n)[:60] for n in ma.tree.body if isinstance(n, (ast.Assign, ast.AugAssign))]
+        if rebinds:
+            problems.append('pyramid/config/actions.py rebinds names at module level: %r' % rebinds)
         me = F.Module(src, 'pyramid/exceptions.py')
         cce = [n for n in me.tree.body if isinstance(n, ast.ClassDef) and n.name == 'ConfigurationConflictError'][0]
         if [_u(b) for b in cce.bases] != ['ConfigurationError']:
@@ -377,6 +398,32 @@ def gen_case(rng, small=False):
         rng.shuffle(ds)
         n = rng.choice([1, 1, 2, ndisc])
         case['falsy'] = sorted([d, k] for d, k in zip(ds[:n], kinds_))
+    # a HISTORY on one ActionState / Configurator: further rounds of declarations, each followed by a commit
+    if rng.random() < 0.25:
+        rounds = []
+        for _ in range(rng.choice([1, 1, 2])):
+            budget[0] = rng.choice([1, 2, 2, 3, 4])
+            r = []
+            while budget[0] > 0:
+                r.append(mk(0, -30))
+            rounds.append(r)
+        case['rounds'] = rounds
+    # a REPEATED declaration: the same plain-None action (same callable, args, info, chain, phase) declared again
+    if rng.random() < 0.2:
+        import copy
+        lists = []
+
+        def collect(l):
+            lists.append(l)
+            for a in l:
+                collect(a['adds'])
+        for l in _rounds(case):
+            collect(l)
+        cands = [(l, i) for l in lists for i, a in enumerate(l) if _plain_none(a)]
+        if cands:
+            l, i = rng.choice(cands)
+            for _ in range(rng.choice([1, 1, 2])):
+                l.insert(rng.randrange(i + 1, len(l) + 1), copy.deepcopy(l[i]))
     return case
 
 
@@ -413,6 +460,17 @@ SEEDS = [
 
 
 SEEDS += [
+    # histories: a second commit on the same object is the commit of its own actions only
+    {'mode': 'direct', 'nodes': [], 'actions': [A(0, 1, 0, 0)], 'rounds': [[A(1, 1, 0, 0)]]},
+    {'mode': 'direct', 'nodes': [], 'actions': [A(0, None, 0, 5)], 'rounds': [[A(1, None, 0, 0)]]},
+    {'mode': 'include', 'nodes': [], 'actions': [A(0, 1, 0, 0), A(1, 1, 0, 0)], 'rounds': [[A(2, None, 0, 0)]]},
+    {'mode': 'include', 'nodes': [[0, 's1']], 'actions': [A(0, 1, 0, 0)], 'rounds': [[A(1, 1, 1, 0)], [A(2, 1, 0, -10)]]},
+    # repeated plain-None declarations, with re-entrancy in between
+    {'mode': 'direct', 'nodes': [], 'actions': [A(0, None, 0, 0, adds=[A(1, None, 0, 0)]), A(2, None, 0, 0), A(2, None, 0, 0)]},
+    {'mode': 'direct', 'nodes': [], 'actions': [A(0, None, 0, 0, adds=[A(1, None, 0, 0)]), A(0, None, 0, 0, adds=[A(1, None, 0, 0)])]},
+    {'mode': 'include', 'nodes': [], 'actions': [A(2, None, 0, 0), A(0, None, 0, 0, adds=[A(1, None, 0, 5)]), A(2, None, 0, 0), A(2, None, 0, 0)]},
+]
+SEEDS += [
     # a Deferred resolving to None is 'no discriminator': never conflicts, never discarded, whatever ran before
     {'mode': 'direct', 'nodes': [], 'actions': [A(0, None, 0, 0, kind=1), A(1, None, 0, 0, kind=1)]},
     {'mode': 'direct', 'nodes': [[0, 'a']], 'actions': [A(0, None, 0, 0, kind=1), A(1, None, 1, 0, kind=1)]},
@@ -434,6 +492,20 @@ def _walk(acts):
             yield b
 
 
+def _all_actions(case):
+    """every action of every commit of the case"""
+    for a in _walk(case['actions']):
+        yield a
+    for r in case.get('rounds', []):
+        for a in _walk(r):
+            yield a
+
+
+def _plain_none(a):
+    """an action (with its whole subtree) without discriminator and not deferred: the only kind the generator repeats"""
+    return a['disc'] == [0, None] and all(_plain_none(b) for b in a['adds'])
+
+
 def valid(case):
     try:
         if case['mode'] not in ('direct', 'include'):
@@ -445,7 +517,13 @@ def valid(case):
         if case['mode'] == 'include' and len({s for _, s in case['nodes']}) != nn:
             return False
         ids = []
-        for a in _walk(case['actions']):
+        seen = {}
+        for a in _all_actions(case):
+            if a['id'] in seen:
+                if seen[a['id']] != a or not _plain_none(a):
+                    return False            # the same id twice only for an identical, repeated plain-None declaration
+                continue
+            seen[a['id']] = a
             ids.append(a['id'])
             k, dv = a['disc']
             if k not in (0, 1) or not (dv is None or isinstance(dv, int) and 1 <= dv <= 9):
@@ -462,7 +540,9 @@ def valid(case):
             return False
         if not all(isinstance(d, int) and 1 <= d <= 9 and k in ok_kinds for d, k in fz):
             return False
-        return len(set(ids)) == len(ids) and len(ids) <= 30
+        if not all(isinstance(r, list) for r in case.get('rounds', [])) or len(case.get('rounds', [])) > 3:
+            return False
+        return len(set(ids)) == len(ids) and len(ids) <= 40
     except Exception:
         return False
 
@@ -484,9 +564,15 @@ def shrinks(case):
                 yield acts[:i] + [dict(a, order=0)] + acts[i + 1:]
             if a['node'] != 0:
                 yield acts[:i] + [dict(a, node=0)] + acts[i + 1:]
+    rs = case.get('rounds', [])
+    for j in range(len(rs)):                       # drop a whole later commit, or merge nothing: just drop
+        yield dict(case, rounds=rs[:j] + rs[j + 1:])
     for acts in variants(case['actions']):
         yield dict(case, actions=acts)
-    used = {a['node'] for a in _walk(case['actions'])} | {p for p, _ in case['nodes']}
+    for j, r in enumerate(rs):
+        for acts in variants(r):
+            yield dict(case, rounds=rs[:j] + [acts] + rs[j + 1:])
+    used = {a['node'] for a in _all_actions(case)} | {p for p, _ in case['nodes']}
     n = len(case['nodes'])
     if n and n not in used:
         yield dict(case, nodes=case['nodes'][:-1])
@@ -516,14 +602,15 @@ def _wact(a):
 
 def to_wire(case):
     return [1 if case['mode'] == 'include' else 0, [[p, _spec(case, s)] for p, s in case['nodes']],
-            [_wact(a) for a in case['actions']]]
+            [_wact(a) for a in case['actions']], [[_wact(a) for a in r] for r in case.get('rounds', [])]]
 
 
 def from_wire(case, raw):
-    if raw == [['bad']] or not isinstance(raw, list) or len(raw) != 5:
+    if raw == [['bad']] or not isinstance(raw, list) or len(raw) != 6:
         return {'model': ['MODEL-BAD', raw], 'spec': None}
-    m_commit, s_commit, s_exec, flags, m_resolve = raw
-    return {'model': [m_commit, m_resolve], 'spec': [s_commit, s_exec, flags]}
+    m_commit, s_commit, s_exec, flags, m_resolve, later = raw
+    return {'model': [m_commit, m_resolve, [r[0] for r in later]],
+            'spec': [s_commit, s_exec, flags, [[r[1], r[2], r[3]] for r in later]]}
 
 
 # ------------------------------------------------------------------ implementation
@@ -561,7 +648,7 @@ def _disc_val(case, dv):
 
 def _disc_num(case):
     rev = {}
-    for a in _walk(case['actions']):
+    for a in _all_actions(case):
         dv = a['disc'][1]
         if dv is not None:
             rev[_disc_val(case, dv)] = dv
@@ -620,28 +707,49 @@ def _outcome(fn, log, rev=None):
         return ['EXC', type(e).__name__, str(e)[:80]]
 
 
+def _rounds(case):
+    return [case['actions']] + list(case.get('rounds', []))
+
+
 def _run_direct(case):
+    """ONE ActionState for the whole history: declare, execute_actions(), declare more, execute_actions() again ..."""
     state = _impl['ActionState']()
-    log = []
+    cur = [[]]
     paths = _paths(case)
+    calls = {}
+
+    def callable_of(a):
+        # one callable per action identity: a repeated declaration hands the SAME callable, args, kw, info again,
+        # so the two action dicts compare equal
+        if a['id'] not in calls:
+            def call():
+                cur[0].append([0, a['id']])
+                for b in a['adds']:
+                    declare(b)
+            calls[a['id']] = call
+        return calls[a['id']]
 
     def declare(a):
-        def call():
-            log.append([0, a['id']])
-            for b in a['adds']:
-                declare(b)
-        state.action(_disc_obj(case, a, log), call, order=a['order'], includepath=paths[a['node']], info='a%d' % a['id'])
-    for a in case['actions']:
-        declare(a)
-    out = _outcome(state.execute_actions, log, _disc_num(case))
-    return [out, log]
+        state.action(_disc_obj(case, a, cur[0]), callable_of(a), order=a['order'], includepath=paths[a['node']],
+                     info='a%d' % a['id'])
+    res = []
+    for acts in _rounds(case):
+        cur[0] = []
+        for a in acts:
+            declare(a)
+        out = _outcome(state.execute_actions, cur[0], _disc_num(case))
+        res.append([out, cur[0]])
+    return res
 
 
 def _run_include(case):
+    """ONE Configurator (and its nested configurators) for the whole history; commit() after every round.  After a
+    successful commit the Configurator installs a new ActionState, after a failed one it keeps the old one."""
     config = _impl['Configurator'](registry=_impl['Registry']('c04'), autocommit=False)
-    log = []
+    cur = [[]]
     cfgs = {0: config}
     children = {}
+    calls = {}
     for k, (p, s) in enumerate(case['nodes'], start=1):
         children.setdefault(p, []).append((k, s))
 
@@ -656,18 +764,27 @@ def _run_include(case):
     for k, s in children.get(0, []):
         config.include(make_inc(k, s))
 
+    def callable_of(a):
+        if a['id'] not in calls:
+            def call():
+                cur[0].append([0, a['id']])
+                for b in a['adds']:
+                    declare(b)
+            calls[a['id']] = call
+        return calls[a['id']]
+
     def declare(a):
-        def call():
-            log.append([0, a['id']])
-            for b in a['adds']:
-                declare(b)
         cfg = cfgs[a['node']]
         cfg.info = 'a%d' % a['id']
-        cfg.action(_disc_obj(case, a, log), call, order=a['order'])
-    for a in case['actions']:
-        declare(a)
-    out = _outcome(config.commit, log, _disc_num(case))
-    return [out, log]
+        cfg.action(_disc_obj(case, a, cur[0]), callable_of(a), order=a['order'])
+    res = []
+    for acts in _rounds(case):
+        cur[0] = []
+        for a in acts:
+            declare(a)
+        out = _outcome(config.commit, cur[0], _disc_num(case))
+        res.append([out, cur[0]])
+    return res
 
 
 def _run_resolve(case):
@@ -692,15 +809,17 @@ def _run_resolve(case):
 def run_impl(case):
     if not _impl:
         setup('quick')
+    nr = len(_rounds(case))
     try:
-        main = _run_include(case) if case['mode'] == 'include' else _run_direct(case)
+        hist = _run_include(case) if case['mode'] == 'include' else _run_direct(case)
     except Exception as e:                      # declaring through the public API failed: keep the shape, show the failure
-        main = [['EXC', 'declare:' + type(e).__name__, str(e)[:80]], []]
+        hist = [[['EXC', 'declare:' + type(e).__name__, str(e)[:80]], []]] * nr
+    main = hist[0]
     try:
         res = _run_resolve(case)
     except Exception as e:
         res = [['EXC', 'resolve:' + type(e).__name__], [], [], [], 0]
-    return [main, res]
+    return [main, res, hist[1:]]
 
 
 # ------------------------------------------------------------------ judging
@@ -720,22 +839,29 @@ def _reduce_spec(out):
 def spec_holds(case, obs, spec):
     if spec is None:
         return None
-    s_commit, s_exec, flags = spec
-    wf_ids, wf_orders, flat = flags
-    if not wf_ids or not wf_orders:
-        return None
-    (out, log), _ = obs
-    got = [_reduce(out), log]
-    if flat and got != [_reduce_spec(s_commit[0]), s_commit[1]]:
-        return False
-    return got == [_reduce_spec(s_exec[0]), s_exec[1]]
+    s_commit, s_exec, flags, later = spec
+    # identities are distinct except for repeated plain-None declarations (valid() checks exactly that); for those the
+    # Coq flag wf_ids is false although the specification -- every None-discriminated action runs -- applies unchanged
+    ids_ok = bool(flags[0]) or valid(case)
+    verdict = None
+    rounds = [(obs[0], s_commit, s_exec, flags)] + [(o, r[0], r[1], r[2]) for o, r in zip(obs[2], later)]
+    for (out, log), sc, sx, fl in rounds:
+        if not ids_ok or not fl[1]:
+            continue
+        got = [_reduce(out), log]
+        if fl[2] and got != [_reduce_spec(sc[0]), sc[1]]:
+            return False
+        if got != [_reduce_spec(sx[0]), sx[1]]:
+            return False
+        verdict = True
+    return verdict
 
 
 def classify(case, obs, spec):
     """DESIGN.md section 5 items 3 and 4 (both repaired in /tmp/repo_fixed)."""
     if spec is None:
         return None
-    (out, log), _ = obs
+    (out, log) = obs[0]
     s_exec = spec[1]
     if out and out[0] == 2 and s_exec[0][0] != 2:
         return 'C04-discarded-action-lingers'
@@ -756,12 +882,12 @@ def classify(case, obs, spec):
 
 
 def nontrivial(case, obs):
-    ds = [a['disc'][1] for a in _walk(case['actions']) if a['disc'][1] is not None]
+    ds = [a['disc'][1] for a in _all_actions(case) if a['disc'][1] is not None]
     return len(ds) != len(set(ds))
 
 
 def kinds(case, obs):
-    (out, log), res = obs
+    (out, log), res = obs[0], obs[1]
     acts = list(_walk(case['actions']))
     k = [{0: 'done', 1: 'conflict', 2: 'late-refused', 3: 'crash'}.get(out[0], 'exc') if out else 'exc']
     k.append('mode-' + case['mode'])
@@ -799,6 +925,20 @@ def kinds(case, obs):
     if out and out[0] == 1:
         k.append('conflict-after-some-ran' if runs else 'conflict-before-any-ran')
         k.append('conflict-%d-discs' % min(len(out[1]), 3))
+    nr = len(case.get('rounds', []))
+    if nr:
+        k.append('history-%d-commits' % (nr + 1))
+        outs = [out] + [o for o, _ in obs[2]]
+        if any(o and o[0] != 0 for o in outs[:-1]):
+            k.append('history-commit-after-a-failed-one')
+        first = {a['disc'][1] for a in _walk(case['actions'])} - {None}
+        if any(a['disc'][1] in first for r in case['rounds'] for a in _walk(r)):
+            k.append('history-redeclares-a-discriminator')
+    ids = [a['id'] for a in _all_actions(case)]
+    if len(ids) != len(set(ids)):
+        k.append('repeated-declaration')
+        if any(a['adds'] for a in _all_actions(case)):
+            k.append('repeated-declaration-reentrant')
     k.append('resolve-' + ({0: 'done', 1: 'conflict', 2: 'late'}.get(res[0][0], 'other') if res[0] else 'other'))
     return k
 
